@@ -108,6 +108,20 @@ func VerifSetSyncLinkTimeout(d time.Duration) time.Duration {
 	return old
 }
 
+// VerifSubscribedTopics lists the pubsub topics the peer is subscribed to right now (the collection topics decide which
+// updates of other nodes it hears of).
+func (p *Peer) VerifSubscribedTopics() []string {
+	p.server.mu.Lock()
+	defer p.server.mu.Unlock()
+	var out []string
+	for name, t := range p.server.topics {
+		if t.subscribed {
+			out = append(out, name)
+		}
+	}
+	return out
+}
+
 type verifAddr string
 
 func (a verifAddr) Network() string { return "libp2p" }
